@@ -75,6 +75,8 @@ class Sources:
             self.extra_files |= {os.path.realpath(lark.visitors.__file__), os.path.realpath(lark.tree.__file__)}
         except Exception:
             pass
+        import collections, _collections_abc
+        self.extra_files |= {os.path.realpath(collections.__file__), os.path.realpath(_collections_abc.__file__)}
 
     def is_repo_file(self, path):
         if not path:
